@@ -79,10 +79,13 @@ func solveStructure(cmd *cobra.Command, args []string) {
 			preFileDone.Add(1)
 			go (func() {
 				defer preFileDone.Done()
+				verifWriterGate()
 				file := inkio.CreateFile(outPath + inkio.PreFileExt)
 				defer file.Close()
 				iopre.Write(preStructure, file)
+				verifWriterDone()
 			})()
+			verifMainAfterSpawn()
 		}
 	} else if inkio.IsPreprocessedFile(inputFilePath) {
 		preStructure = readPreprocessedStructureFromFile(inputFilePath)
@@ -108,6 +111,7 @@ func solveStructure(cmd *cobra.Command, args []string) {
 	defer solFile.Close()
 
 	iosol.Write(solution, solFile)
+	verifMainAtEnd()
 	preFileDone.Wait()
 
 	log.Result()
